@@ -64,17 +64,17 @@ def _ev(e, env, bools) -> bool:
 
 def run(prog: Program, rep: Report):
     ss = prog.cls("SpanSet", SPAN_MOD)
-    r1_relations(prog, rep)
-    r2_sites(prog, rep, ss)
-    r3_operators(prog, rep, ss)
-    r4_comparisons(prog, rep, ss)
-    r5_arrays(prog, rep, ss)
-    r8_input_order(prog, rep, ss)
+    rep.attempt(lambda: r1_relations(prog, rep))
+    rep.attempt(lambda: r2_sites(prog, rep, ss))
+    rep.attempt(lambda: r3_operators(prog, rep, ss))
+    rep.attempt(lambda: r4_comparisons(prog, rep, ss))
+    rep.attempt(lambda: r5_arrays(prog, rep, ss))
+    rep.attempt(lambda: r8_input_order(prog, rep, ss))
     from .ownership import rule_no_class_state
-    rule_no_class_state(prog, rep, "C10.R9", [ss])
+    rep.attempt(lambda: rule_no_class_state(prog, rep, "C10.R9", [ss]))
     from .memo import public_entry_points, rule_derived_state
-    rule_derived_state(prog, rep, "C10.R7", ss, {"starts", "ends", "eq_relation"}, public_entry_points(prog, ss))
-    oneshot_rule(prog, rep, "C10.R6", [prog.method(ss, "__init__"), prog.method(ss, "isdisjoint")])
+    rep.attempt(lambda: rule_derived_state(prog, rep, "C10.R7", ss, {"starts", "ends", "eq_relation"}, public_entry_points(prog, ss)))
+    rep.attempt(lambda: oneshot_rule(prog, rep, "C10.R6", [prog.method(ss, "__init__"), prog.method(ss, "isdisjoint")]))
 
 
 def relation_formula_check(prog, rep: Report, rule: str, cname: str, closed_only: bool = False):
@@ -381,7 +381,16 @@ def r3_operators(prog, rep: Report, ss: Cls):
         other = f.params[1]
         rets = returns_of(f.node)
         if len(rets) != 1:
-            rep.unrec("C10.R3", f, "operator", "expected a single return")
+            handed = [r for r in rets if isinstance(r.value, ast.Name) and r.value.id in (f.self_name, other)]
+            if handed:
+                rep.viol("C10.R3", f, "operator:fresh-result", f"`{src(handed[0])}` hands an operand out as the result: it is not passed "
+                         "through the exact de-duplication (an operand built with force_no_dup_check keeps its repeated spans) and the "
+                         "result carries the operand's relation instead of the exact one",
+                         scenario="A = SpanSet([(1,3),(2,4),(1,3)], force_no_dup_check=True); list(A | SpanSet([])) lists (1,3) twice; "
+                                  "(2,3) in (PartOf{(1,10)} | {}) is True although (2,3) is not a span of either operand",
+                         line=handed[0].lineno)
+            else:
+                rep.unrec("C10.R3", f, "operator", "expected a single return")
             continue
         flow = Flow(f.node)
         v = flow.expand(rets[0].value)
